@@ -50,13 +50,15 @@ CONSTANTS NChunks,     \* chunk positions 1..NChunks
           MaxInv, MaxTrim, MaxFail,
           Age,         \* chunk position -> "old" | "linger" | "open"  (relation of now to chunk.end)
           FixAwait, FixPublish, FixInvMax,
+          SeqInv,      \* TRUE: invalidate calls do not overlap (one invalidation goroutine, as in the product)
           MaxOps       \* bound on behaviour length for the export configurations (0 = none)
 
 VARIABLES bk, ch, ld, invs, clock, acc, ntrim, nfail, hist
 
 mvars == <<bk, ch, ld, invs, clock, acc, ntrim, nfail>>
 vars  == <<mvars, avars, hist>>
-View  == <<mvars, avars>>
+(* the future does not depend on which request returned last, only the verdicts on it are checked *)
+View  == <<mvars, aLoads, aFin, aInv, aDead, aGets, aRet.placement, aRet.produced, aRet.fresh, aQui, aEmp>>
 
 K      == "k"                      \* the bucket's query key
 Poss   == 1..NChunks
@@ -71,6 +73,15 @@ SlotsOf(p)   == ((p - 1) * CS + 1)..(p * CS)
 IdleLd == [st |-> "idle", lo |-> 0, hi |-> 0, first |-> 0, nch |-> 0, play |-> 0, sa |-> FALSE,
            force |-> FALSE, data |-> <<>>, chunks |-> <<>>, waitN |-> 0, recv |-> 0, err |-> FALSE,
            now |-> 0, lpc |-> "none", lok |-> FALSE, pidx |-> 0]
+
+(* state-space reduction: a request whose Get returned and whose loader goroutine ended, and a
+   detached chunk nobody refers to any more, have no influence on the future: canonical form *)
+DoneLd == [IdleLd EXCEPT !.st = "done", !.lpc = "finished"]
+DeadCh(c) == [pos |-> c.pos, data |-> NoData, loading |-> 0, lsa |-> 0, inv |-> 0, aw |-> <<>>, det |-> TRUE, size |-> 0]
+NormLd(lds) == [g \in DOMAIN lds |-> IF lds[g].st = "done" /\ lds[g].lpc \in {"none", "finished"} THEN DoneLd ELSE lds[g]]
+Referred(lds, c) == \E g \in DOMAIN lds : lds[g].lpc \in {"spawned", "reading", "loaded", "post"} /\
+                       \E k \in DOMAIN lds[g].chunks : k >= lds[g].pidx /\ lds[g].chunks[k].cid = c
+NormCh(chs, lds) == [c \in DOMAIN chs |-> IF chs[c].det /\ chs[c].aw = <<>> /\ ~Referred(lds, c) THEN DeadCh(chs[c]) ELSE chs[c]]
 
 Init == /\ bk = [p \in Poss |-> 0]
         /\ ch = <<>>
@@ -232,9 +243,10 @@ PostLoadCore(g) ==
                                            ELSE IF newest THEN 0 ELSE @]
            last   == L.pidx = Len(L.chunks)
            ld1    == [ld EXCEPT ![g].pidx = @ + 1, ![g].lpc = IF last THEN "finished" ELSE "post"]
-       IN /\ ch' = [ch EXCEPT ![lc.cid] = c1]
+           ld2    == NormLd(Deliver(ld1, aws, cdata, ok))
+       IN /\ ch' = NormCh([ch EXCEPT ![lc.cid] = c1], ld2)
           /\ acc' = IF store THEN acc + 1 - c.size ELSE acc
-          /\ ld' = Deliver(ld1, aws, cdata, ok)
+          /\ ld' = ld2
     /\ UNCHANGED <<bk, invs, clock, ntrim, nfail>>
     /\ UNCHANGED avars
 PostLoad(g) == PostLoadCore(g) /\ hist' = Append(hist, [a |-> "Post", g |-> g])
@@ -248,7 +260,7 @@ GetEndCore(g) ==
            row(i) == LET d == L.data[lst + i - 1]
                      IN IF d = Nil THEN <<>> ELSE << <<K, d[2], d[1], 0>> >>
        IN AGetEnd(g, ~L.err, [i \in 1..n |-> row(i)])
-    /\ ld' = [ld EXCEPT ![g].st = "done"]
+    /\ ld' = NormLd([ld EXCEPT ![g].st = "done"])
     /\ UNCHANGED <<bk, ch, invs, clock, acc, ntrim, nfail>>
 GetEnd(g) == GetEndCore(g) /\ hist' = Append(hist, [a |-> "GetEnd", g |-> g])
 
@@ -256,6 +268,7 @@ GetEnd(g) == GetEndCore(g) /\ hist' = Append(hist, [a |-> "GetEnd", g |-> g])
 (* cache2.invalidate: the clock is read first, the bucket is visited later *)
 InvBeginCore(i, T) ==
     /\ i \notin DOMAIN invs
+    /\ SeqInv => \A j \in DOMAIN invs : invs[j].done
     /\ invs' = [x \in DOMAIN invs \cup {i} |-> IF x = i THEN [T |-> T, t |-> clock, done |-> FALSE] ELSE invs[x]]
     /\ clock' = clock + 1
     /\ UNCHANGED <<bk, ch, ld, acc, ntrim, nfail>>
@@ -304,8 +317,8 @@ InvApply(i) == InvApplyCore(i) /\ hist' = Append(hist, [a |-> "InvApply", i |-> 
 TrimCore(T) ==
     /\ T # {} /\ \A p \in T : bk[p] # 0
     /\ ntrim < MaxTrim
-    /\ ch' = [c \in DOMAIN ch |-> IF ch[c].pos \in T /\ bk[ch[c].pos] = c
-                                  THEN [ch[c] EXCEPT !.size = 0, !.data = NoData, !.det = TRUE] ELSE ch[c]]
+    /\ ch' = NormCh([c \in DOMAIN ch |-> IF ch[c].pos \in T /\ bk[ch[c].pos] = c
+                                         THEN [ch[c] EXCEPT !.size = 0, !.data = NoData, !.det = TRUE] ELSE ch[c]], ld)
     /\ acc' = acc - Cardinality({p \in T : ch[bk[p]].size = 1})
     /\ bk' = [p \in Poss |-> IF p \in T THEN 0 ELSE bk[p]]
     /\ ntrim' = ntrim + 1
@@ -331,7 +344,7 @@ Next ==
        \/ \E i \in DOMAIN invs : InvApply(i)
        \/ \E T \in (SUBSET Poss) \ {{}} : Trim(T)
 
-Finished == \A g \in Gets : ld[g].st = "done" /\ ld[g].lpc \in {"none", "finished"}
+Finished == \A g \in Gets : ld[g] = DoneLd
 Spec == Init /\ [][Next]_vars
 FairSpec == Spec /\ \A g \in Gets : WF_vars(LoaderStep(g))
 
